@@ -237,8 +237,11 @@ def main(seed, tier):
     # keystore: key and id are the specified functions of the stored values, for every text style
     from dissect.hypervisor.util.envelope import KeyStore
 
+    shared_id = rng.randbytes(16)
     for ci in range(12 if tier == "quick" else 60):
         key_id, d1, d2 = rng.randbytes(16), rng.randbytes(rng.choice([16, 1, 32])), rng.randbytes(rng.choice([16, 8, 32]))
+        if ci % 3 == 1:
+            key_id = shared_id  # re-keyed stores keep their id: the key must follow data1/data2, not the id
         text = keystore_text(rng, key_id, d1, d2, ci)
         try:
             ks = KeyStore.from_text(text)
